@@ -674,6 +674,11 @@ impl Sim {
                     }
                     if let Some(pc) = post_chain {
                         let st2 = replay_chain(pc);
+                        // side finding (counted): a listed cell that the overlay held BEFORE the writer and that the chain
+                        // AFTER the writer no longer has — listed by neither consistent view
+                        if st.live.values().any(|c| self.pool_dead.contains(&c.op) && !post_dead.contains(&c.op) && !st2.live.contains_key(&c.op) && page.iter().any(|p| p.starts_with(&format!("{}.{}@", c.op.0, c.op.1)))) {
+                            out.count("x-pool-tear-cell-listed");
+                        }
                         if want(SPEC) != oracle_cells(&st2, post_dead, lock, &q, exact, &f, desc, SPEC).into_iter().take(limit as usize).collect::<Vec<_>>() {
                             out.count("x-cells-answer-depends-on-snapshot");
                             self.n_x_torn += 1;
@@ -757,29 +762,35 @@ impl Sim {
                 }
                 if judge {
                     let st = replay_chain(&self.chain);
-                    // the first page: `limit` rows, or the rows of the first `limit` runs of equal transaction
-                    let want = |sem: Sem| -> Vec<String> {
-                        let rows = oracle_tx_rows(&st, lock, &q, exact, &fs, &blk, desc, sem);
-                        if !group {
-                            return rows.iter().take(limit as usize).map(show_tx_row).collect();
-                        }
-                        let mut v = vec![];
-                        let mut runs = 0u32;
-                        let mut last: Option<u64> = None;
-                        for r in rows.iter() {
-                            if last != Some(r.tx) {
-                                runs += 1;
-                                last = Some(r.tx);
+                    // ungrouped: the first `limit` rows of the direct filter. Grouped: the code tests `limit reached and another
+                    // transaction` on rows BEFORE the filter script / block range apply, so a page may end early at a row
+                    // that is filtered out: the page is a prefix of the direct filter's row list, and it is the whole list
+                    // unless it already holds `limit` runs of equal transaction
+                    let all = |sem: Sem| -> Vec<String> { oracle_tx_rows(&st, lock, &q, exact, &fs, &blk, desc, sem).iter().map(show_tx_row).collect() };
+                    let runs = {
+                        let mut n = 0u32;
+                        let mut last: Option<&str> = None;
+                        for r in flat.iter() {
+                            let tx = r.split('@').next();
+                            if tx != last {
+                                n += 1;
+                                last = tx;
                             }
-                            if runs > limit {
-                                break;
-                            }
-                            v.push(show_tx_row(r));
                         }
-                        v
+                        n
                     };
-                    for c in classify(&flat, &want, "x-txs-neq-snapshot-filter") {
-                        out.oracle_fail(c, &format!("x {} got={:?} want={:?}", t.join(" "), flat, want(SPEC)));
+                    let ok = |sem: Sem| -> bool {
+                        let a = all(sem);
+                        if !group {
+                            return flat == a.iter().take(limit as usize).cloned().collect::<Vec<_>>();
+                        }
+                        a.starts_with(&flat) && (flat.len() == a.len() || runs >= limit) && runs <= limit
+                    };
+                    if !ok(SPEC) {
+                        let cls: Vec<&str> = DEVIATIONS.iter().find(|(sem, _)| ok(*sem)).map(|(_, c)| c.to_vec()).unwrap_or_else(|| vec!["x-txs-neq-snapshot-filter"]);
+                        for c in cls {
+                            out.oracle_fail(c, &format!("x {} got={:?} want(all rows)={:?}", t.join(" "), flat, all(SPEC)));
+                        }
                     }
                 }
                 format!("txs {}", if page.is_empty() { "-".into() } else { page.join(",") })
